@@ -380,7 +380,7 @@ func main() {
 		"max_selection_nodes": map[string]int{"single-file": plans[0].n, "follow-schema": plans[1].n},
 		"grammar":             "ordered selection sets over Query{str,z:str,arg[6 argument forms],t,targ[3 argument forms],node,u,rep,__typename} Rep{old,rows,newFoo,new_foo} Row{id} (Rep.old is bound to the Go field of Rep.rows by @goField(name:) and is declared before it, Rep.new_foo normalises to the Go field of Rep.newFoo: one ComplexityRoot member per pair, assignments are per member and the oracle is asked under every schema name) Mutation{m1,m3} T{id,z:id,name,kid,peer,u,__typename} S{id,peer} Node{id,__typename} Named{name} Deep{peer} U{__typename}; inline fragments without / with type condition in {T,S,Node,Named,Deep,U} (where the types overlap); named fragment definition+spread on the same conditions; re-use of any fragment of the document; argument forms of Query.arg (leaf, default x=7): none, x:3, x:$v, x:2 y:[p,q], x:-4, x:null; of Query.targ (composite, added by this check as `extend type Query { targ(x: Int = 6): T }`, default x=6): none, x:3, x:$v; variable modes for $v: given 2, variable default 4, absent, null",
 		"assignments":         "custom functions on <= 2 of the Object.field pairs the operation touches (for interface selections: every implementing object), each from {const 0, 1, 5, -3, maxInt, maxInt-1, child*2 saturating, child+x+10*len(y) (= child on fields without arguments)}; plus one assignment per operation putting maxInt on every field the operation does not touch",
-		"limits":              "{0, 1, c-1, c, c+1, maxInt} (de-duplicated, c = reference complexity)",
+		"limits":              "core {0, 1, c-1, c, c+1, maxInt} for every (operation, assignment) that gets the gate (c = reference complexity); the full boundary grid {minInt, minInt+1, -maxInt, -2, -1, 0, 1, c-1, c, c+1, maxInt-1, maxInt} (de-duplicated) for the first assignment reaching each distinct complexity value of each operation - each grid limit through FixedComplexityLimit on a fresh executor, and the grid as one history through a long-lived executor with the per-request ComplexityLimit{Func} (limit from a header). The assignments' constants put c on the boundary grid {0, 1, 2, 5, maxInt-1, maxInt (also as saturated sums)}",
 		"executor_gate":       fmt.Sprintf("every limit x every assignment for operations with <= %d nodes (layout single-file) / <= %d nodes (layout follow-schema); for larger operations every limit x the first assignment reaching each distinct reference value", plans[0].fullGate, plans[1].fullGate),
 		"http":                fmt.Sprintf("operations with <= %d nodes, no custom function, limits {c-1, c} through handler.Server + transport.POST (httptest recorder)", plans[0].httpMax),
 		"context_faults":      "fault enumeration over where the request context becomes done: cancelled before CreateOperationContext, expired deadline, and cancelled inside the k-th custom complexity function call for EVERY k of the walk (k = 1..number of calls measured on a live walk). For every operation: (a) the assignment putting const 1 on every Object.field the operation touches (every field node of the walk, each implementor for interface selections, is a call position), (b) no custom function (the two already-done contexts); for operations within the full-gate size additionally every single-field assignment. Per placement: complexity.Calculate(ctx) and the executor with FixedComplexityLimit at limits {c-1, c}; plus POST through handler.Server with an already cancelled / expired request context, no custom function, limits {c-1, c}. Stub resolvers never look at ctx.",
